@@ -79,6 +79,21 @@ Definition rect_val (n m : Z) (width height sh0 sh1 co si : S) (aa : bool) (i j 
 Definition rectangle (n m : Z) (width height sh0 sh1 co si : S) (aa : bool) : arr S :=
   mkArr n m (rect_val n m width height sh0 sh1 co si aa).
 
+(* ---- helper.mesh itself: the pair (r, c) of rotated coordinates of sample (i, j) ---- *)
+Definition mesh_val (n m : Z) (sh0 sh1 co si : S) (i j : Z) : S * S :=
+  (rot_r (mesh1 n i sh0) (mesh1 m j sh1) co si, rot_c (mesh1 n i sh0) (mesh1 m j sh1) co si).
+
+(* ---- spider: 1 - rectangle(shape, len, width, shift', angle); [s2] = sqrt 2.
+   len = sqrt(2)*max(shape)/2, the arm is pushed out of the centre by len/2 along the angle:
+   shift' = (shift[0] - len/2 * sin, shift[1] + len/2 * cos) ---- *)
+Definition spider_len (n m : Z) (s2 : S) : S := (s2 * kofz (Z.max n m) * khalf)%K.
+Definition spider_val (n m : Z) (width s2 sh0 sh1 co si : S) (aa : bool) (i j : Z) : S :=
+  let len := spider_len n m s2 in
+  let dist := (len * khalf)%K in
+  (k1 - rect_val n m len width (sh0 + (- dist) * si)%K (sh1 + dist * co)%K co si aa i j)%K.
+Definition spider (n m : Z) (width s2 sh0 sh1 co si : S) (aa : bool) : arr S :=
+  mkArr n m (spider_val n m width s2 sh0 sh1 co si aa).
+
 (* ---- hexagon: [ns] = the six (sin theta, cos theta); [s3] = sqrt 3 ---- *)
 Definition hex_slc (inner : S) (aa : bool) (r c : S) (nrm : S * S) : S :=
   let rho := (r * fst nrm + c * snd nrm)%K in
@@ -111,7 +126,8 @@ End Shapes.
 Arguments kofz {S}. Arguments khalf {S}. Arguments k32 {S}. Arguments kmax {S}. Arguments kmin {S}.
 Arguments clip {S}. Arguments kabs {S}. Arguments gtb {S}. Arguments binarize {S}. Arguments mesh1 {S}.
 Arguments rot_r {S}. Arguments rot_c {S}. Arguments circle_val {S}. Arguments circle {S}.
-Arguments rect_val {S}. Arguments rectangle {S}. Arguments hex_slc {S}. Arguments hex_fold {S}.
+Arguments rect_val {S}. Arguments rectangle {S}. Arguments mesh_val {S}. Arguments spider_len {S}.
+Arguments spider_val {S}. Arguments spider {S}. Arguments hex_slc {S}. Arguments hex_fold {S}.
 Arguments hex_val {S}. Arguments hexagon {S}. Arguments hex_to_rc {S}. Arguments seg_shift {S}.
 Arguments hex_shifts {S}.
 
